@@ -1290,3 +1290,12 @@ V("r7-c02-assignment-dropped-by-ndim", "C02", "fire", AN, _ANM_ASSIGN,
   rule="CASES.anm", what="scalar-returning assignments are replaced by 0")
 V("r7-c02-silent-loop-local-temporary", "C02", "silent", AN, _ANM_ASSIGN, "                parents = self.A[:, i] != 0\n                assignment = np.transpose(self.assignments[i](X[:, parents]))\n",
   what="a temporary rebound in every iteration", accept_inconclusive=True)
+_ADJN = "            adj_neighbors = np.all([adj_i - {y} <= adj(y, P) for y in n_i])\n"
+for _p in ("C08", "C10"):
+    V("r7-%s-np-all-of-generator" % _p.lower(), _p, "fire", UT, _ADJN, "            adj_neighbors = np.all(adj_i - {y} <= adj(y, P) for y in n_i)\n", rule="API.all-of-generator",
+      what="np.all(<generator>) is always True: the Dor-Tarsi adjacency condition is never tested")
+    V("r7-%s-silent-builtin-all-of-generator" % _p.lower(), _p, "silent", UT, _ADJN, "            adj_neighbors = all(adj_i - {y} <= adj(y, P) for y in n_i)\n",
+      what="builtin all() iterates the generator", accept_inconclusive=True)
+_CHILD_EDGES = "        directed_edges += [(i, j) for j in ch(i, G)]\n"
+V("r7-c10-child-edges-only-for-sources", "C10", "fire", UT, _CHILD_EDGES, "        if len(pa(i, P)) == 0:\n            directed_edges += [(i, j) for j in ch(i, G)]\n", rule="ORIENT.edges",
+  what="the edges from a target to its children are oriented only when the target has no parent in the CPDAG")
